@@ -2,7 +2,7 @@
 
 # result sorts, used when a function is opaque (uninterpreted) in a proof that does not need its definition
 SIG = {'length_ok': 'bool', 'length_octets': 'int[nat]', 'length_value': 'int[nat]', 'tlv_ok': 'bool', 'tlv_size': 'int[nat]',
-       'tlv_content': 'bytes', 'explicit_ok': 'bool', 'encode_length': 'bytes'}
+       'tlv_content': 'bytes', 'explicit_ok': 'bool', 'encode_length': 'bytes', 'int_value': 'int', 'int_minimal': 'bool', 'lemma_len_prefix': 'bool', 'lemma_tlv_build': 'bool'}
 
 
 
@@ -67,3 +67,38 @@ def explicit_ok(b, tag, inner):
         return False
     c = tlv_content(b)
     return tlv_ok(c, inner) and tlv_size(c) == len(c)
+
+
+def int_value(p):
+    """X.690 8.3: two's complement big-endian contents octets (empty contents read as 0, which DER forbids)"""
+    if len(p) == 0:
+        return 0
+    if p[0] >= 128:
+        return be(p) - pow2(8 * len(p))
+    return be(p)
+
+
+def int_minimal(p):
+    """X.690 8.3.2: at least one octet, and the first nine bits are neither all zero nor all one"""
+    if len(p) == 0:
+        return False
+    if len(p) >= 2 and p[0] == 0 and p[1] < 128:
+        return False
+    if len(p) >= 2 and p[0] == 255 and p[1] >= 128:
+        return False
+    return True
+
+
+# ---- spec-level lemmas (each has its own proof unit; instances are assumed where a proof keeps the functions opaque)
+
+def lemma_len_prefix(d, p):
+    """length octets are read from the front: data after them does not change what they say"""
+    return implies(length_ok(d) and length_octets(d) == len(d),
+                   length_ok(d + p) and length_octets(d + p) == len(d) and length_value(d + p) == length_value(d))
+
+
+def lemma_tlv_build(t, d, p):
+    """identifier octet t, complete length octets d announcing len(p), then p: exactly one TLV with content p"""
+    return implies(0 <= t and t <= 255 and length_ok(d + p) and length_octets(d + p) == len(d) and length_value(d + p) == len(p),
+                   tlv_ok(bytes([t]) + d + p, t) and tlv_size(bytes([t]) + d + p) == 1 + len(d) + len(p)
+                   and tlv_content(bytes([t]) + d + p) == p)
